@@ -27,6 +27,25 @@ fn col_text(v: u32, j: usize) -> String {
     WORDS[((v as usize) * 7 + j * 3) % WORDS.len()].to_string()
 }
 
+/// items carry a drop counter (C11): `DROPS[v]` = how often the item with value `v` was dropped
+const NIDS: usize = 4096;
+static DROPS: [AtomicU32; NIDS] = [const { AtomicU32::new(0) }; NIDS];
+pub struct Tracked(u32);
+impl Drop for Tracked {
+    fn drop(&mut self) {
+        DROPS[self.0 as usize % NIDS].fetch_add(1, Ordering::SeqCst);
+    }
+}
+fn dropped_str() -> String {
+    let d: Vec<String> = (0..NIDS)
+        .filter_map(|k| {
+            let v = DROPS[k].load(Ordering::SeqCst);
+            if v > 0 { Some(if v == 1 { format!("{k}") } else { format!("{k}x{v}") }) } else { None }
+        })
+        .collect();
+    if d.is_empty() { "-".to_string() } else { d.join(".") }
+}
+
 struct Gates {
     /// hold the next run at `run.start` until released
     hold_run: AtomicBool,
@@ -46,10 +65,10 @@ struct Writer {
 }
 
 struct H {
-    nucleo: Nucleo<u32>,
+    nucleo: Nucleo<Tracked>,
     notify: Arc<AtomicU32>,
     gates: Arc<Gates>,
-    injectors: BTreeMap<u32, (Injector<u32>, u32)>, // handle -> (injector, stream generation)
+    injectors: BTreeMap<u32, (Injector<Tracked>, u32)>, // handle -> (injector, stream generation)
     generation: u32,
     writers: BTreeMap<u32, Writer>,
     cols: usize,
@@ -63,10 +82,10 @@ struct H {
     next_v: u32,
 }
 
-fn fill(cols: usize) -> impl Fn(&u32, &mut [Utf32String]) {
+fn fill(cols: usize) -> impl Fn(&Tracked, &mut [Utf32String]) {
     move |v, c| {
         for j in 0..cols {
-            c[j] = col_text(*v, j).into();
+            c[j] = col_text(v.0, j).into();
         }
     }
 }
@@ -81,12 +100,12 @@ impl H {
             let a = s.get_item(m.idx);
             let b = s.get_matched_item(k as u32);
             let good = match (a, b) {
-                (Some(a), Some(b)) => a.data == b.data && (0..self.cols).all(|j| a.matcher_columns[j].to_string() == col_text(*a.data, j)),
+                (Some(a), Some(b)) => a.data.0 == b.data.0 && (0..self.cols).all(|j| a.matcher_columns[j].to_string() == col_text(a.data.0, j)),
                 _ => false,
             };
             ok.push(if good { '1' } else { '0' });
         }
-        let vals: Vec<String> = s.matches().iter().map(|m| s.get_item(m.idx).map(|i| i.data.to_string()).unwrap_or("n".into())).collect();
+        let vals: Vec<String> = s.matches().iter().map(|m| s.get_item(m.idx).map(|i| i.data.0.to_string()).unwrap_or("n".into())).collect();
         let pd = format!("{:?}", (0..self.cols).map(|c| s.pattern().column_pattern(c).atoms.clone()).collect::<Vec<_>>());
         let pid = self.pat_debug.iter().position(|d| *d == pd).map(|i| i as i64).unwrap_or(-1);
         format!(
@@ -101,7 +120,7 @@ impl H {
 
     fn record(&mut self, what: String, nf_before: u32, with_snap: bool) {
         let nf = self.notify.load(Ordering::SeqCst) - nf_before;
-        let mut e = format!("{}|ai={}|nf={}", what, self.nucleo.active_injectors(), nf);
+        let mut e = format!("{}|ai={}|nf={}|dr={}", what, self.nucleo.active_injectors(), nf, dropped_str());
         if with_snap {
             e.push_str(&format!("|snap={}", self.snapshot_str()));
         }
@@ -190,7 +209,10 @@ fn run_history(rng: &mut Rng, mode: &str, _k: usize) -> String {
         })));
     }
     let n2 = notify.clone();
-    let nucleo: Nucleo<u32> = Nucleo::new(Config::DEFAULT, Arc::new(move || { n2.fetch_add(1, Ordering::SeqCst); }), Some(pool), cols as u32);
+    for d in DROPS.iter() {
+        d.store(0, Ordering::SeqCst);
+    }
+    let nucleo: Nucleo<Tracked> = Nucleo::new(Config::DEFAULT, Arc::new(move || { n2.fetch_add(1, Ordering::SeqCst); }), Some(pool), cols as u32);
     let mut h = H {
         nucleo,
         notify,
@@ -247,7 +269,7 @@ fn run_history(rng: &mut Rng, mode: &str, _k: usize) -> String {
                     let n = rng.below(4) as usize;
                     let vals: Vec<u32> = (0..n).map(|_| { h.next_v += 1; h.next_v }).collect();
                     let before = inj.injected_items();
-                    inj.extend(vals.clone().into_iter(), fill(cols));
+                    inj.extend(vals.iter().map(|v| Tracked(*v)).collect::<Vec<_>>().into_iter(), fill(cols));
                     h.items.extend(vals.iter());
                     let vs = if vals.is_empty() { "-".to_string() } else { vals.iter().map(|v| v.to_string()).collect::<Vec<_>>().join(".") };
                     let what = if cur { format!("extend:{id}:{vs}={before}") } else { format!("oldextend:{id}:{vs}") };
@@ -255,7 +277,7 @@ fn run_history(rng: &mut Rng, mode: &str, _k: usize) -> String {
                 } else {
                     h.next_v += 1;
                     let v = h.next_v;
-                    let idx = inj.push(v, fill(cols));
+                    let idx = inj.push(Tracked(v), fill(cols));
                     h.items.push(v);
                     let what = if cur { format!("push:{id}:{v}={idx}") } else { format!("oldpush:{id}:{v}") };
                     h.record(what, nf0, false);
@@ -277,9 +299,9 @@ fn run_history(rng: &mut Rng, mode: &str, _k: usize) -> String {
                 let (tx_in, rx_in) = mpsc::channel::<()>();
                 let reached = Mutex::new(Some(tx_in));
                 let handle = std::thread::spawn(move || {
-                    inj.push(v, move |val, c| {
+                    inj.push(Tracked(v), move |val, c| {
                         for j in 0..cols {
-                            c[j] = col_text(*val, j).into();
+                            c[j] = col_text(val.0, j).into();
                         }
                         if let Some(t) = reached.lock().unwrap().take() {
                             t.send(()).unwrap();
@@ -406,14 +428,18 @@ fn run_history(rng: &mut Rng, mode: &str, _k: usize) -> String {
     // from-scratch reference: a fresh Nucleo fed the items of the current stream and the final pattern
     let cur_items: Vec<u32> = {
         let inj = h.nucleo.injector();
-        (0..inj.injected_items()).filter_map(|i| inj.get(i).map(|it| *it.data)).collect()
+        (0..inj.injected_items()).filter_map(|i| inj.get(i).map(|it| it.data.0)).collect()
     };
     let fresh_snap = {
         nucleo::verif::set_callback(None);
         let mut f: Nucleo<u32> = Nucleo::new(Config::DEFAULT, Arc::new(|| {}), Some(1), cols as u32);
         let inj = f.injector();
         for v in &cur_items {
-            inj.push(*v, fill(cols));
+            inj.push(*v, move |val: &u32, c: &mut [Utf32String]| {
+                for j in 0..cols {
+                    c[j] = col_text(*val, j).into();
+                }
+            });
         }
         for c in 0..cols {
             f.pattern.reparse(c, &h.cur_text[c], CaseMatching::Smart, Normalization::Smart, false);
@@ -452,15 +478,18 @@ fn run_history(rng: &mut Rng, mode: &str, _k: usize) -> String {
     all.dedup();
     let items: Vec<String> = all.iter().map(|v| format!("{v}:{}", (0..cols).map(|j| Utf32String::from(col_text(*v, j)).len()).sum::<usize>())).collect();
     nucleo::verif::set_callback(None);
-    drop(h.injectors);
+    let evs = h.ev.join(";");
+    drop(h);
+    let final_drops = dropped_str();
     format!(
-        "H pool={} cols={} items={} pats={} scores={} fresh={} ev={}",
+        "H pool={} cols={} items={} pats={} scores={} fresh={} alldropped={} ev={}",
         pool,
         cols,
         if items.is_empty() { "-".to_string() } else { items.join(",") },
         pats.join(","),
         if scores.is_empty() { "-".to_string() } else { scores.join(",") },
         fresh_snap,
-        h.ev.join(";")
+        final_drops,
+        evs
     )
 }
